@@ -65,7 +65,10 @@ BENIGN = {
     ("impls::physical::PhysicalFS", "append_file", "call:OpenOptions::write"): "append(true) implies write access: .write(true).append(true) == .append(true)",
     ("impls::physical::PhysicalFS", "*", "call:task::spawn_blocking"): "filetime is blocking: run on tokio's blocking pool",
     ("impls::physical::PhysicalFS", "*", "call:Handle::try_current"): "runtime probe for the blocking pool",
-    ("impls::physical::PhysicalFS", "*", "lit:Tokio Concurrency Error: "): "join error of the blocking pool",
+    ("impls::physical::PhysicalFS", "*", "lit:Tokio"): "join error of the blocking pool (\"Tokio Concurrency Error: \", word by word)",
+    ("impls::physical::PhysicalFS", "*", "lit:Concurrency"): "join error of the blocking pool",
+    ("impls::physical::PhysicalFS", "*", "lit:Error"): "join error of the blocking pool",
+    ("impls::physical::PhysicalFS", "*", "lit::"): "join error of the blocking pool",
     ("impls::physical::PhysicalFS", "*", "kind:Other"): "join error of the blocking pool is reported as Other",
     ("impls::physical::PhysicalFS", "*", "call:Pin::new"): "AsyncPhysicalFS stores Pin<PathBuf>",
     ("impls::physical::PhysicalFS", "*", "call:PathBuf::join"): "std::path vs async_std::path join (same semantics)",
@@ -159,15 +162,27 @@ def events(facts, inter, body, depth=3, _seen=None):
     return ev
 
 
+def _lit_events(text, ev):
+    """a literal without white space (a separator, a suffix, a file name) is one event; running text (messages) is compared word
+    by word, so that how a message is cut into format pieces and arguments — "Could not {}, parent .." against
+    "Could not {}, {}" with the reason passed in — is not a difference between the twins, while a changed or missing word still is"""
+    text = mapname(text)
+    if not re.search(r"\s", text):
+        ev.add("lit:" + text)
+        return
+    for tok in re.findall(r"[\w']+|[^\w\s]", text):
+        ev.add("lit:" + tok)
+
+
 def _lits(o, ev):
     s_ = o.const_str()
     if s_:
-        ev.add("lit:" + mapname(s_))
+        _lit_events(s_, ev)
     bs = o.const_bytes()
     if bs:
         for k, v in decode_fmt_template(bs):
             if k == "lit" and v.strip():
-                ev.add("lit:" + mapname(v))
+                _lit_events(v, ev)
 
 
 def methods_of(facts, ty):
@@ -268,6 +283,11 @@ def poll_next_rules(facts, rep, D):
                     a[2][0][2][0][0] == "field" and a[2][0][2][0][2] in fut_slots:
                 slot = a[2][0][2][0][2]
                 continue
+            # ... or the payload of `match slot.take() { Some(f) => f, .. }` / `if let Some(f) = slot.take()`
+            if a[0] == "okval" and a[1][0] == "call" and a[1][1] == "Option::take" and a[1][2] and a[1][2][0][0] == "field" and \
+                    a[1][2][0][2] in fut_slots:
+                slot = a[1][2][0][2]
+                continue
             ok_src = False
             for x in walk(a):
                 if x[0] == "field" and x[2] in fut_slots:
@@ -354,6 +374,7 @@ def run(facts, rep, tier, ctx):
     n += c09.listing_rules(facts, A, wa, "R09.4")
     n += c09.materialisation_rules(facts, A, wa, "R09.2")
     n += c10.marker_rules(facts, A, wa)
+    n += c09.relative_join_rules(facts, A, wa, "R09.6")
     rep.floor("overlay obligations on the async world", n, 55)
     n = c07.delegation(facts, A, wa, "R07.3", D)
     rep.floor("altroot obligations on the async world", n, 40)
